@@ -41,7 +41,7 @@ theorem jit_prologue_sim (env : Env) (haddr : Nat → Option Nat) (um : Bool) (c
   rw [hl0] at hcs
   obtain ⟨k, σ', retAddr, top, hst, hrel0, htop, hrip, hpad, hsaved, -⟩ :=
     entry_prologue um c L m σ tgt l hexit hcs (hloc 0 l hl0) hsize he
-  exact ⟨k, σ', retAddr, top, hst, ⟨hrel0, htop, ⟨i0, hi0⟩, ⟨l, hl0, hrip⟩⟩, hpad, hsaved⟩
+  exact ⟨k, σ', retAddr, top, hst, ⟨hrel0, htop, ⟨i0, hi0⟩, ⟨l, hl0, hrip⟩, rfl⟩, hpad, hsaved⟩
 
 /-- landing pad and epilogue: from the state `jit_run_sim` ends in, the machine returns to the caller with rax = r0,
     the callee-saved registers restored, rsp popped -/
